@@ -198,8 +198,13 @@ def history(rng, profile=None, length=None):
                 if o in ("401", "409"):
                     # a fresh connect was launched at once unless the back-off holds it
                     g.ops.append("proc state")
+                if not timeout and rng.random() < 0.4:
+                    g.ops.append("proc latetrigger %s %d" % (run, rng.choice([ALL, DEFAULT, 16 | 32 | 64 | 128 | 256])))
         elif k < 0.92:
             g.ops.append("proc app %s run=%s" % (h, rng.choice(["-", run or "-", "rX"] + g.dead_runs[-1:])))
+        elif k < 0.94 and g.dead_runs and not timeout:
+            # a tick of a timer of a run that has been shut down, still on its way when the run ended
+            g.ops.append("proc latetrigger %s %d" % (rng.choice(g.dead_runs), rng.choice([ALL, DEFAULT, 16, 32, 64, 128, 256, 16 | 32 | 64])))
         elif k < 0.96:
             g.ops.append("proc advance %d" % rng.choice([1, 27, 31, 31, 300, 601, 601]))
             if timeout and g.ops[-1].endswith("601"):
@@ -586,6 +591,49 @@ def package_history(rng):
     return g.ops
 
 
+def stale_tick_history(rng):
+    """C04: data that arrived under a run after its last harvest, the run restarted by the collector, the application
+    reconnected under a new run id (other headers, other redirect host) - and then a tick of a timer of the OLD run, which
+    was already on its way, reaches the processor: whatever is sent must carry the old run's id, never the new one's"""
+    g = Gen(rng, napps=rng.choice([1, 2]), profile="nofatal", timeout=0)
+    for i in range(1, g.napps + 1):
+        g.defapp(i)
+    for h in g.apps:
+        g.connect(h)
+    h = g.apps[0]
+    run1 = g.run_of[h]
+    for _ in range(rng.randint(1, 3)):
+        g.txn(run1)
+    mask = rng.choice([DEFAULT, ALL, 16, 32])
+    g.trigger(run1, mask=mask)
+    for _ in range(rng.randint(1, 4)):
+        g.txn(run1)                                    # arrives after the swap: sits in run 1's harvest
+    g.ops.append("proc advance 31")
+    cmd = {DEFAULT: "metric_data", ALL: "metric_data", 16: "analytic_event_data", 32: "custom_event_data"}[mask]
+    g.ops.append("proc reply %s %s 0 %s" % (run1, cmd, rng.choice(["409", "409", "401"])))
+    g.dead_runs.append(run1)
+    g.ops.append("proc state")
+    if rng.random() < 0.3:
+        g.ops.append("proc latetrigger %s %d" % (run1, rng.choice([ALL, DEFAULT, 32])))
+    g.ops.append("proc app %s run=%s" % (h, run1))
+    g.ops.append("proc reply %s preconnect 0 200 host=coll9-%s.example" % (h, h))
+    run2, args = g.connect_reply_args(h)
+    g.ops.append("proc reply %s connect 0 200 %s" % (h, args))
+    g.run_of[h] = run2
+    for _ in range(rng.randint(0, 2)):
+        g.txn(run2)
+    g.ops.append("proc latetrigger %s %d" % (run1, rng.choice([ALL, ALL, DEFAULT, 16 | 32 | 64 | 128 | 256])))
+    if rng.random() < 0.5:
+        g.txn(run2)
+        g.trigger(run2)
+    g.ops.append("proc state")
+    for r in [run1, run2]:
+        g.drain(r, rng.choice(["200", "200", "409", "503"]))
+    g.ops.append("proc state")
+    g.ops.append("proc cleanexit default=200")
+    return g.ops
+
+
 def rule_change_history(rng):
     """C07: the rename rules are those of the run's own connect reply.  An application connects with one rule list, reports
     metrics, is restarted by the collector at a harvest (409) and reconnects with another rule list (or none); possibly again"""
@@ -709,5 +757,5 @@ def _wireify(fn):
 
 
 for _n in ["history", "retry_history", "lifecycle_history", "malformed_history", "capacity_history", "zero_limit_history",
-           "package_history", "rule_change_history", "overlap_history"]:
+           "package_history", "rule_change_history", "overlap_history", "stale_tick_history"]:
     globals()[_n] = _wireify(globals()[_n])
